@@ -1036,6 +1036,14 @@ def move_imports_to_toplevel(source: str) -> str:
         else:
             lineno = 1
 
+    # Nothing may come before from __future__ imports
+    lineno = max(
+        [lineno]
+        + [
+            node.end_lineno + 1
+            for node in core.filter_nodes(root.body, ast.ImportFrom(module="__future__"))
+    ])
+
     additions = []
     removals = []
     for node in imports_movable_to_toplevel:
